@@ -402,6 +402,46 @@ func (e *Engine) parseContractFile(file, pkg string) error {
 					curLoop.At = strings.TrimSpace(rest)
 				}
 			}
+		case "spec":
+			// spec NAME(p1 Sort1, p2 Sort2) Sort = expr
+			eq := strings.Index(rest, " = ")
+			lp := strings.Index(rest, "(")
+			rp := strings.Index(rest, ")")
+			if eq < 0 || lp < 0 || rp < lp || rp > eq {
+				return fmt.Errorf("%s: bad spec definition", where)
+			}
+			sd := &SpecDef{Name: strings.TrimSpace(rest[:lp]), Result: Sort(strings.TrimSpace(rest[rp+1 : eq])), Pkg: pkg, Where: where}
+			for _, prm := range splitCommas(rest[lp+1 : rp]) {
+				f := strings.Fields(prm)
+				if len(f) == 2 {
+					sd.Params = append(sd.Params, f[0])
+					sd.Sorts = append(sd.Sorts, Sort(f[1]))
+				}
+			}
+			ex, err := parser.ParseExpr(rewriteImplies(strings.TrimSpace(rest[eq+3:])))
+			if err != nil {
+				return fmt.Errorf("%s: cannot parse spec body: %v", where, err)
+			}
+			sd.Body = ex
+			sd.Text = strings.TrimSpace(rest[eq+3:])
+			e.specDefs = append(e.specDefs, sd)
+		case "globalinv":
+			// globalinv VARNAME m: expr   (m is the value of the package variable VARNAME of this package)
+			i := strings.Index(rest, ":")
+			if i < 0 {
+				return fmt.Errorf("%s: bad globalinv", where)
+			}
+			hd := strings.Fields(rest[:i])
+			if len(hd) != 2 {
+				return fmt.Errorf("%s: bad globalinv header", where)
+			}
+			gi := &CellInv{Comp: "G_" + sanitize(pkg) + "_" + sanitize(hd[0]), Var: hd[1], Pkg: pkg}
+			c := &Clause{Line: where, Label: "globalinv." + hd[0]}
+			p := &pending{c: c, raw: rest[i+1:], kind: "globalinv"}
+			pend = append(pend, p)
+			lastRaw = &p.raw
+			gi.Expr = c
+			e.globalinvs = append(e.globalinvs, gi)
 		case "typeinv":
 			// typeinv pkg.Type v: expr   (v is a non-nil *pkg.Type)
 			i := strings.Index(rest, ":")
@@ -1581,4 +1621,64 @@ func linearRem(a, b Term) (Term, bool) {
 		}
 	}
 	return Term{}, false
+}
+
+// SpecDef: a spec function defined in a contract file (`//@ spec f(x Str) Int = ...`).
+type SpecDef struct {
+	Name   string
+	Params []string
+	Sorts  []Sort
+	Result Sort
+	Body   ast.Expr
+	Text   string
+	Pkg    string
+	Where  string
+	SMT    string
+}
+
+// compileSpecDefs turns the spec definitions into define-funs (appended to the prelude) and registers their signatures.
+func (e *Engine) compileSpecDefs() error {
+	for _, sd := range e.specDefs {
+		fe := &FuncEnc{eng: e, name: "spec." + sd.Name, declared: map[string]bool{}, inlined: map[string]bool{}, trusted: map[string]bool{},
+			assumes: map[string]bool{}, bvOffsets: map[string]bvOffset{}, consts: map[string]bool{}}
+		f := &Frame{params: map[string]Term{}, ptypes: map[string]types.Type{}, labelCnt: map[string]int{}}
+		fe.cur = f
+		names := map[string]TV{}
+		var ps []string
+		for i, p := range sd.Params {
+			names[p] = TV{Term{"sp_" + p, sd.Sorts[i]}, nil}
+			ps = append(ps, "(sp_"+p+" "+string(sd.Sorts[i])+")")
+		}
+		var err error
+		var body Term
+		func() {
+			defer func() {
+				if r := recover(); r != nil {
+					if ee, ok := r.(*EngineError); ok {
+						err = fmt.Errorf("%s: %s", sd.Where, ee.msg)
+						return
+					}
+					panic(r)
+				}
+			}()
+			ctx := &specCtx{fe: fe, f: f, cur: &State{heap: map[string]Term{}}, old: &State{heap: map[string]Term{}}, names: names, bound: map[string]TV{}, where: sd.Where}
+			body = ctx.eval(sd.Body).T
+		}()
+		if err != nil {
+			return err
+		}
+		if len(fe.items) > 0 {
+			return fmt.Errorf("%s: spec body must be closed (no heap access)", sd.Where)
+		}
+		if body.Sort != sd.Result {
+			if lit, ok := intLiteral(body.S); ok && sd.Result == SBV64 {
+				body = tBV64(uint64(lit))
+			} else {
+				return fmt.Errorf("%s: spec body has sort %s, declared %s", sd.Where, body.Sort, sd.Result)
+			}
+		}
+		sd.SMT = fmt.Sprintf("(define-fun %s (%s) %s %s)", sd.Name, strings.Join(ps, " "), sd.Result, body.S)
+		e.specs.sigs[sd.Name] = &SpecSig{Name: sd.Name, Params: sd.Sorts, Result: sd.Result}
+	}
+	return nil
 }
